@@ -26,6 +26,7 @@ import (
 //   f3     three fields (thorough): primary (full, optional=dep over both siblings) × sibling × sibling
 //   h1,h2  httpx.Parse on generated requests; every field has its own source
 //   docs   degenerate documents (totality only)
+//   hi     history independence (hist.go): part 0 = forward, part 1 = reverse enumeration order
 
 type shardSpec struct {
 	group, entry string
@@ -64,6 +65,11 @@ func shardList(thorough bool) []string {
 		add("f2", e, p2)
 	}
 	add("h2", EHTTP, ph)
+	for _, e := range directEntries {
+		add("hi", e, 2)
+	}
+	add("hi", EHTTP, 2)
+	add("hi", EMIX, 2*nMixParts)
 	if thorough {
 		// parts-major: the completed prefix of a time-boxed run is "the first k blocks of primary
 		// specs (simplest kinds first) on every entry point"
@@ -89,6 +95,11 @@ type runner struct {
 	seenKey  map[string]bool // coarse finding keys already classified in this worker
 	stopped  bool
 	sampling bool // this shard contributes one sample case to the evidence file
+	hist     bool // a history shard (hist.go)
+	poisoned bool // hist shards: a shared-state (aliasing) failure was seen; later plain findings are its consequences
+	inReplay bool
+	probed   map[string]bool // class -> the shrunk case fails alone in a fresh process
+	quiet    bool // dump children of the cold-order comparison: execute the history, report nothing
 	nCases   int64
 	nTypes   int64
 	outcomes [nOutcomeClasses]int64
@@ -156,6 +167,9 @@ func (x *runner) evalType(entry string, fs []Field, fams [][]Tok) {
 }
 
 func (x *runner) report(c *Case, fd *finding) {
+	if x.quiet {
+		return
+	}
 	coarse := fd.Kind + "|" + c.Entry
 	if fd.Field >= 0 {
 		f := c.Fields[fd.Field]
@@ -172,9 +186,49 @@ func (x *runner) report(c *Case, fd *finding) {
 		return
 	}
 	x.seenKey[coarse] = true
+	if c.Alt != nil {
+		// a split type (hist.go): if the type with the same options under every key fails the same
+		// way, it is an ordinary finding; otherwise an unmarshaler reads another key's options
+		plain := cloneCase(c)
+		if pfd, _ := check(plain); pfd != nil && pfd.Kind == fd.Kind {
+			c, fd = plain, pfd
+		} else {
+			sc := cloneCase(c)
+			sc.Alt = c.Alt
+			x.finish("split-keys:"+fd.Kind+histFeatures(c, fd.Field, fd.Kind), sc, fd)
+			return
+		}
+	}
 	class, sc, sfd := classify(c, fd)
+	x.finish(class, sc, sfd)
+}
+
+// finish records a classified finding. The shrunk case was found (and shrunk) in a process with a
+// history; if it does not fail on its own in a FRESH process (tried in a child process, once per
+// class), the failure is caused by what was unmarshalled before: the class gets the `history:`
+// prefix and the replay re-runs the shard's history instead of the single case.
+func (x *runner) finish(class string, sc *Case, sfd *finding) {
+	alone, ok := x.probed[class]
+	if !ok {
+		alone = reproducesAlone(x.cfg, sc)
+		if x.probed == nil {
+			x.probed = map[string]bool{}
+		}
+		x.probed[class] = alone
+	}
+	desc := sfd.Desc
+	if !alone {
+		// the shrinker cannot remove options here (every tag text has its own cache entries, only the
+		// failing one is in the failing state), so the key is the coarse one of the history classes
+		class = "history:" + sfd.Kind + histFeatures(sc, sfd.Field, sfd.Kind)
+		desc = "only after the earlier evaluations of the shard (alone in a fresh process the case passes): " + desc
+		sc.Hist = &HistScript{Mode: "shard", Shard: x.shard, Tier: x.cfg.Tier, Step: "first evaluation"}
+	}
 	sc.fill(sfd)
-	x.r.Violation(class, fmt.Sprintf("%s  type=%s  input=%s  [entry %s]", sfd.Desc, sc.Type, sc.Input, sc.Entry), sc)
+	if !alone {
+		sc.Expected += "; the same verdict and value whatever was unmarshalled before"
+	}
+	x.r.Violation(class, fmt.Sprintf("%s  type=%s  input=%s  [entry %s]", desc, sc.Type, sc.Input, sc.Entry), sc)
 }
 
 // expired: the soft time box of the whole run. The parent publishes its absolute deadline in the
@@ -244,6 +298,8 @@ func (x *runner) runShard(s shardSpec) {
 				}
 			}
 		}
+	case "hi":
+		x.runHist(s, -1)
 	case "h1":
 		for _, src := range sources {
 			for _, f := range primarySpecs(0, 1, th) {
@@ -354,10 +410,17 @@ func summariseCuts(r *vlib.Report) {
 const rule = "one evaluation = one (entry point, generated struct type, input vector) executed on the real code and judged by the " +
 	"independent evaluator; every element of the bounded family is generated exactly once. A (entry, type) pair is counted as " +
 	"distinct non-trivial when the type declares at least one constraint (required / dependency / range / options) and the run " +
-	"observed both an accepted and a rejected input for it."
+	"observed both an accepted and a rejected input for it. History groups (hi): every (type, input) of the sub-family is " +
+	"executed 4 times per enumeration order (target 1, which is then mutated in place through every slice / map / pointer; a " +
+	"second target; a target of a sibling type; once more after all other types) and all four must agree with each other and " +
+	"with the evaluator; an (order, entry, type) counts as non-trivial when an accepted target held a slice / map / pointer " +
+	"that was actually written through."
 
 func main() {
 	cfg := vlib.ParseFlags("C08", "exploration")
+	if os.Getenv(dumpEnv) != "" {
+		histDumpChild(cfg)
+	}
 	r := vlib.NewReport(cfg)
 	if cfg.Replay != "" {
 		replay(cfg, r)
@@ -393,12 +456,13 @@ func main() {
 	}
 	vlib.RunShards(r, names, func(name string, r *vlib.Report) {
 		s := parseShard(name)
-		x := &runner{r: r, cfg: cfg, shard: name, seenKey: map[string]bool{}}
+		x := &runner{r: r, cfg: cfg, shard: name, seenKey: map[string]bool{}, hist: s.group == "hi"}
 		x.sampling = s.part == 0 && (s.group == "f2" || s.group == "h2" || s.group == "f3")
 		x.runShard(s)
 		x.finishShard(s)
 		pprof.StopCPUProfile()
 	})
+	compareOrders(r, cfg, shardList(cfg.Thorough()))
 	sortViolations(r)
 	sort.SliceStable(r.Samples, func(i, j int) bool { return fmt.Sprint(r.Samples[i]) < fmt.Sprint(r.Samples[j]) })
 	summariseCuts(r)
@@ -423,6 +487,14 @@ func replay(cfg *vlib.Config, r *vlib.Report) {
 		if c.Toks[i].T == "list" && c.Toks[i].E == nil {
 			c.Toks[i].E = []Tok{}
 		}
+	}
+	if c.Hist != nil {
+		if replayHist(cfg, class, &c) {
+			fmt.Printf("VIOLATION property=C08 replay=%s\n", cfg.Replay)
+			os.Exit(1)
+		}
+		fmt.Println("replay: the case no longer fails")
+		os.Exit(0)
 	}
 	fd, _ := check(&c)
 	c.fill(fd)
